@@ -189,6 +189,7 @@ type RCase struct {
 	RD    int
 	Cache int // 0 none, else kind*100+cap*2 as in C03
 	Ops   []bz.ROp
+	Plain bool // the source is a plain io.Reader (cannot seek): Seek operations of the history are skipped
 }
 
 func drawR(t *rapid.T) RCase {
@@ -211,6 +212,7 @@ func drawR(t *rapid.T) RCase {
 		}
 		return op
 	}), 1, 14).Draw(t, "ops")
+	c.Plain = rapid.IntRange(0, 3).Draw(t, "plain") == 0
 	return c
 }
 
@@ -236,7 +238,11 @@ func faultyRun(c RCase, f *bz.File, fault *bz.Fault, cur *atomic.Value) (msg str
 	}
 	defer func() { calls, delivered = src.NCalls(), src.Failed }()
 	cur.Store("NewReader")
-	r, err := bgzf.NewReader(src, c.RD)
+	var in io.Reader = src
+	if c.Plain {
+		in = struct{ io.Reader }{src}
+	}
+	r, err := bgzf.NewReader(in, c.RD)
 	if err != nil {
 		if fault == nil {
 			return "NewReader: " + err.Error(), 0, false
@@ -271,6 +277,9 @@ func faultyRun(c RCase, f *bz.File, fault *bz.Fault, cur *atomic.Value) (msg str
 	for i, op := range c.Ops {
 		switch op.K {
 		case "seek", "retry":
+			if c.Plain {
+				continue
+			}
 			var off bgzf.Offset
 			if op.K == "retry" {
 				if lastSeek == nil {
